@@ -111,7 +111,7 @@ func (g *pg) exprT(t string, d int) string {
 		case 4:
 			return fmt.Sprintf("len(%s)", g.exprT(g.pick([]string{"list", "str", "map"}), d-1))
 		default:
-			return fmt.Sprintf("l[%s]", g.pick([]string{"0", "-3", "i"}))
+			return fmt.Sprintf("l[%s]", g.pick([]string{"0", "-3", "i", "(-9223372036854775807 - 1)", "9223372036854775807"}))
 		}
 	case "float":
 		return fmt.Sprintf("(%s %s %s)", g.exprT("float", d-1), g.pick([]string{"+", "-", "*", "/"}), g.exprT(g.pick([]string{"int", "float"}), d-1))
@@ -192,7 +192,7 @@ func (g *pg) simple() string {
 		return fmt.Sprintf("%s %s %s", g.pick(varsOf["int"]), g.pick([]string{"+=", "-=", "*=", "/=", "%="}), g.exprT("int", 1))
 	case 6:
 		if g.iterM > 0 || g.rng.Intn(2) == 0 {
-			return fmt.Sprintf("l[%s] = %s", g.pick([]string{"0", "1", "-1", "i"}), g.expr(1))
+			return fmt.Sprintf("l[%s] = %s", g.pick([]string{"0", "1", "-1", "i", "(-9223372036854775807 - 1)"}), g.expr(1))
 		}
 		return fmt.Sprintf("m[%s] = %s", g.exprT("str", 1), g.expr(1))
 	case 7:
